@@ -17,8 +17,8 @@
       [Builder], [env], [buildOpts], [dockerOpts] are the frozen ones, and
       the package has no variable besides the frozen list. *)
 From Coq Require Import List String Bool Arith NArith.
-From Verif Require Import Caco.Load Caco.LoadGen Caco.Build Caco.BuildProofs Caco.BuildGen
-     Caco.BuildSession Caco.BuildSessionProofs Gen.CacoBuild.
+From Verif Require Import Caco.Load Caco.LoadGen Caco.LoadSessionGen Caco.Build Caco.BuildProofs Caco.BuildGen
+     Caco.BuildSession Caco.BuildSessionProofs Caco.BuildParse Gen.CacoBuild.
 Import ListNotations.
 Local Open Scope string_scope.
 
@@ -40,17 +40,6 @@ Definition memo_site_per_buildb : bool :=
 Definition frozen_layout_Builder : list (string * string * string) :=
   [ ("env", "*env", ""); ("opts", "*buildOpts", "") ].
 
-Definition frozen_layout_env : list (string * string * string) :=
-  [ ("dock", "*dock.Client", "");
-    ("rootDir", "string", "");
-    ("workDir", "string", "");
-    ("workSrcPath", "string", "");
-    ("srcDir", "string", "");
-    ("outDir", "string", "");
-    ("workspace", "*Workspace", "");
-    ("nodeType", "func(name string) string", "");
-    ("ruleType", "func(name string) string", "") ].
-
 Definition frozen_layout_buildOpts : list (string * string * string) :=
   [ ("log", "io.Writer", ""); ("docker", "*dockerOpts", ""); ("alwaysRebuild", "bool", "") ].
 
@@ -62,14 +51,6 @@ Definition frozen_layout_buildContext : list (string * string * string) :=
   [ ("nodes", "map[string]*buildNode", "");
     ("built", "map[string]string", "");
     ("cache", "*buildCache", "") ].
-
-Definition frozen_layout_loader : list (string * string * string) :=
-  [ ("env", "*env", "");
-    ("nodes", "map[string]*buildNode", "");
-    ("loaded", "map[string]*buildNode", "");
-    ("read", "map[string]bool", "");
-    ("tracer", "*loadTracer", "");
-    ("errList", "*lexing.ErrorList", "") ].
 
 Definition frozen_layout_loadTracer : list (string * string * string) :=
   [ ("trace", "[]string", ""); ("m", "map[string]bool", "") ].
@@ -108,21 +89,6 @@ Proof. vm_compute. reflexivity. Qed.
 Lemma gen_memo_policy_per_build : memo_policy_of_source = MemoPerBuild.
 Proof. vm_compute. reflexivity. Qed.
 
-(** The loader makes its tables anew at every [loadNodes] call (so nothing
-    of a load survives into the next Build): the first statement of
-    [loadNodes] is [l := newLoader(env)] and the skeleton of [loadNodes] is
-    the frozen one (Caco/LoadGen.v). *)
-Definition loader_per_loadb : bool :=
-  match sk_loadNodes with
-  | ("assign", "l := newLoader(env)") :: _ => true
-  | _ => false
-  end &&
-  sk_eqb sk_newLoader
-    [ ("return", "&loader{ env: env, loaded: make(map[string]*buildNode), nodes: make(map[string]*buildNode), read: make(map[string]bool), tracer: newLoadTracer(), errList: lexing.NewErrorList(), }") ].
-
-Lemma gen_loader_per_load : loader_per_loadb = true.
-Proof. vm_compute. reflexivity. Qed.
-
 (** [buildNodes] points [env.nodeType] / [env.ruleType] at the context of THIS
     call before any node is visited (these two fields are the only way the
     rules' build functions see the node table). *)
@@ -137,8 +103,30 @@ Proof. vm_compute. reflexivity. Qed.
 
 Lemma gen_memo_made_per_build :
   memo_policy_of_source = MemoPerBuild /\ memo_site_per_buildb = true /\
-  long_lived_state_frozenb = true /\ loader_per_loadb = true /\ env_hooks_per_buildb = true.
+  long_lived_state_frozenb = true /\ loader_per_loadb = true /\ env_hooks_per_buildb = true /\
+  env_writes_frozenb = true.
 Proof. repeat split; vm_compute; reflexivity. Qed.
+
+(** ** The parse of the BUILD files (Caco/BuildParse.v)
+
+    Every Build call reads the BUILD files anew - and with them expands the
+    Select patterns against the current source tree - exactly when the loader
+    (with its [read] table) is made per call, [readBuildFile] has the frozen
+    text (it consults nothing but the file), and no field of the Builder's
+    [env] other than the workspace memo and the per-call hooks is ever written
+    or exists. *)
+Definition parse_policy_of_source : parse_policy :=
+  if loader_per_loadb && env_writes_frozenb && env_layout_frozenb &&
+     sk_eqb sk_readBuildFile frozen_readBuildFile && sk_eqb sk_loader_readBuildFile frozen_loader_readBuildFile
+  then ParsePerBuild else ParseKept.
+
+Lemma gen_parse_policy_per_build : parse_policy_of_source = ParsePerBuild.
+Proof. vm_compute. reflexivity. Qed.
+
+Theorem source_prun_per_build : forall h s,
+  p_world (fst (prun parse_policy_of_source h s)) = run h (p_world s) /\
+  snd (prun parse_policy_of_source h s) = btrace h (p_world s).
+Proof. rewrite gen_parse_policy_per_build. exact prun_per_build. Qed.
 
 (** ** The session theorems for the policy of the current source *)
 
